@@ -1172,7 +1172,10 @@ func (self *Aof) Init() ([16]byte, error) {
 
 	appendFiles, _, ferr := self.FindAofFiles()
 	if ferr != nil {
-		return [16]byte{}, ferr
+		// a follower killed during a file transfer leaves append files with a gap in their
+		// indexes: it has no position to resume from and synchronises from scratch
+		self.slock.Log().Warnf("Aof find files error %v, start without a log position", ferr)
+		appendFiles = nil
 	}
 	var aofLock *AofLock = nil
 	if len(appendFiles) > 0 {
